@@ -831,6 +831,10 @@ O(id='OCTET_STRING_xer.grid', props=['C01', 'C02', 'C07'], kind='native', harnes
   functions=['OCTET_STRING_encode_xer', 'BIT_STRING_encode_xer', 'OCTET_STRING__convert_hexadecimal', 'OCTET_STRING__convert_binary'], no_canary=True,
   bound='native grid under ASan/UBSan: OCTET STRING and BIT STRING of every length 0..70 (0..7 unused bits) x 3 content patterns x BASIC and CANONICAL XER: text against the contents, size accounting, conversion back', timeout=600)
 
+O(id='SEQUENCE_transcode.grid', props=['C01'], kind='native', harness='harness/grid_transcode.c', entry='main',
+  functions=['SEQUENCE_encode_der', 'SEQUENCE_decode_ber', 'SEQUENCE_encode_oer', 'SEQUENCE_decode_oer', 'SEQUENCE_encode_uper', 'SEQUENCE_decode_uper', 'SEQUENCE_free'], no_canary=True,
+  bound='native grid under ASan/UBSan/LSan: SEQUENCE { a, b OPTIONAL, c } of 2-octet stub members, chain DER -> BER decode -> OER -> decode -> UPER -> decode -> DER for 65536 values of a x b absent/present x 2 values of c', timeout=600)
+
 for _o in OBLIGATIONS:
     if _o.get('enforce') and _o.get('kind') in ('enforce', 'width') and _o.get('tier') == 'quick' and 'C19' not in _o['props']:
         _o['props'] = _o['props'] + ['C19']
@@ -839,7 +843,7 @@ CONSTR = 'constructed codecs beyond the stub-member obligations: the container l
 GEN = 'everything the compiler emits as text: type descriptor tables (emit_type_DEF, emit_member_table), constraint checkers (asn1c_emit_constraint_checking_code), tag maps, selector tables'
 XERU = 'XER beyond the engine: the constructed XER decoders other than SEQUENCE_decode_xer (which has a native grid only), all XER encoders, the OCTET STRING entity/UTF-8 bodies, REAL/INTEGER/ENUMERATED text forms (snprintf/strtod); the engine itself (xer_decode_general, xer_next_token, xer_check_tag, pxml_parse) and the hexadecimal/binary bodies are covered by bounded obligations and a native grid only'
 UNVERIFIED = {
- 'C01': [CONSTR, GEN, XERU, 'uper_open_type_put / uper_open_type_get_simple: fragmentation at 16K needs inputs beyond any unwinding bound; covered only by the native grid uper_open_type.frag-grid (sizes around m*16K, m <= 5)', 'INTEGER (wide) UPER with semi-constrained ranges; NativeEnumerated (bsearch has no CBMC model); REAL text forms; time types', 'transcoding chains'],
+ 'C01': [CONSTR, GEN, XERU, 'uper_open_type_put / uper_open_type_get_simple: fragmentation at 16K needs inputs beyond any unwinding bound; covered only by the native grid uper_open_type.frag-grid (sizes around m*16K, m <= 5)', 'INTEGER (wide) UPER with semi-constrained ranges; NativeEnumerated (bsearch has no CBMC model); REAL text forms; time types', 'transcoding chains beyond the SEQUENCE DER/OER/UPER chain of the native grid SEQUENCE_transcode.grid (XER legs, other containers)'],
  'C02': [CONSTR, GEN, 'tag assignment in the fixer (asn1f_fix_constr_autotag, asn1f_fetch_tags)', 'restricted-string PER alphabets (OCTET_STRING_per_put_characters)', 'NativeInteger_uper.* obligations exist but do not discharge (tier experimental)'],
  'C03': [CONSTR, XERU, 'OCTET_STRING_decode_ber constructed reassembly (obligation experimental)', 'uper_open_type_get_simple / uper_open_type_skip: no CBMC obligation discharges (bit-level fragment copying); covered only by the native grid uper_open_type_skip.grid', 'ber_skip_length (obligation experimental: recursion does not discharge)'],
  'C04': [CONSTR, XERU, 'OCTET_STRING_decode_ber (experimental)', 'per_opentype.c', 'UTF8String__process, OCTET_STRING_per_get_characters', 'unber (experimental)'],
